@@ -4,6 +4,8 @@ access, string conversion) in loops, macros, call blocks, includes, blocks,
 set / filter blocks, tests and filters with attribute arguments."""
 from __future__ import annotations
 
+from vt.mon import c38_shared as SH
+
 # (label, source, needs_async)
 FRAGS = [
     ("attr-access", "{{ rec.a }}{{ rec.sub.c }}{{ rec.b }}{{ rec.sub.d }}", 0),
@@ -132,7 +134,7 @@ LIB = ("{% macro show(p) %}<{{ p.a }}|{{ p.sub.d }}>{% endmacro %}"
        "{% macro wrap() %}({{ caller() }}){% endmacro %}")
 INC = "{{ mark('inc') }}{{ rec.b }}{% for x in it %}{{ x }}{% endfor %}{{ fn() }}{{ s }}"
 INCNC = "static{{ 1 + 1 }}"
-BASE = ("{% import 'lib.j2' as lib %}<base>{% block body %}{{ mark('base-block') }}{{ rec.a }}"
+BASE = ("{% import 'lib.j2' as lib %}{% import 'slib.j2' as sl %}<base>{% block body %}{{ mark('base-block') }}{{ rec.a }}"
         "{% endblock %}|{% block foot %}{{ mark('base-foot') }}{{ s }}{{ fn() }}{% endblock %}"
         "{{ mark('self-block') }}{{ self.foot() }}</base>")
 
@@ -160,6 +162,13 @@ def gen_modlib(rng, is_async):
         extra.append("{% import 'lib.j2' as inner %}")
     if rng.random() < 0.4:
         extra.append("{% for x in g_it %}{{ x }}{% endfor %}")
+    # scoped eval-context changes around data events of the module body itself
+    if rng.random() < 0.5:
+        extra.append(rng.choice([
+            "{% autoescape true %}{{ g_s }}{{ g_fn() }}{% endautoescape %}",
+            "{% autoescape false %}{% set ae_v = g_rec.a ~ g_s %}{{ g_rec.b }}{% endautoescape %}",
+            "{% autoescape g_rec.a is odd %}{% for x in g_it %}{{ x }}{% endfor %}{% endautoescape %}",
+            "{% evalctx autoescape=true %}{{ [g_s, g_rec.b]|join(',') }}{% endevalctx %}"]))
     parts = list(sets)
     for e in extra:
         parts.insert(rng.randint(0, len(parts)), e)
@@ -170,7 +179,9 @@ def gen_modinc(rng, is_async):
     """incg.j2: included WITHOUT context, body output built from global probes."""
     pool = ["{{ g_fn() }}", "{{ g_rec.a }}", "{% for x in g_it %}{{ x }},{% endfor %}", "{{ g_s }}",
             "{% if g_b %}T{% endif %}", "{{ g_rec['k'] }}",
-            "{% import 'glib.j2' as GI %}{{ mark('mod:incg') }}{{ GI.head() }}{{ GI.item }}"]
+            "{% import 'glib.j2' as GI %}{{ mark('mod:incg') }}{{ GI.head() }}{{ GI.item }}",
+            "{% autoescape true %}{{ g_s }}{{ g_fn() }}{{ [g_s, '<']|join }}{% endautoescape %}",
+            "{% autoescape false %}{{ g_rec.b }}{% endautoescape %}{{ g_s|ectx }}"]
     if is_async:
         pool.append("{{ g_afn() }}")
     k = rng.randint(3, len(pool))
@@ -187,14 +198,23 @@ def gen_i18n(rng):
 
 def gen_case(rng, is_async):
     i18n = gen_i18n(rng)
-    pool = [f for f in FRAGS if is_async or not f[2]]
+    pool = [f for f in FRAGS + SH.MAIN_FRAGS if is_async or not f[2]]
     ipool = []
     if i18n:
         style = "new" if i18n["newstyle"] else "old"
         ipool = [(lab, src, 0) for lab, src, st in I18N_FRAGS if st in (None, style)]
-    tpls = {"lib.j2": LIB, "inc.j2": INC, "incnc.j2": INCNC, "base.j2": BASE,
-            "glib.j2": gen_modlib(rng, is_async), "incg.j2": gen_modinc(rng, is_async),
-            "libctx.j2": LIBCTX, "incimp.j2": INCIMP}
+    autoescape = rng.random() < 0.5
+    # sentinels (eval-context sensitive expressions over constants) in every module
+    # that is cached per environment
+    sense = SH.sense_macros(bool(i18n and i18n["newstyle"]))
+    tpls = {"lib.j2": LIB + sense, "inc.j2": INC, "incnc.j2": INCNC, "base.j2": BASE,
+            "glib.j2": gen_modlib(rng, is_async) + sense, "incg.j2": gen_modinc(rng, is_async),
+            "libctx.j2": LIBCTX, "incimp.j2": INCIMP,
+            "slib.j2": SH.gen_slib(rng, is_async, i18n, autoescape), "sinc.j2": SH.SINC,
+            "sincp.j2": SH.SINCP, SH.PROBE: SH.gen_probe(),
+            SH.SELFCHECK: SH.gen_selfcheck(bool(i18n and i18n["newstyle"]))}
+    spool = [(lab, src, 0) for lab, src, needs in SH.SHARED_FRAGS
+             if needs is None or (needs == "async" and is_async) or (needs == "i18n" and i18n)]
     mains = []
     labels = {}
     for mi in range(3):
@@ -202,10 +222,16 @@ def gen_case(rng, is_async):
         frags = []
         for _ in range(nf):
             c = rng.random()
-            if ipool and c < 0.4:
+            if ipool and c < 0.3:
                 frags.append(rng.choice(ipool))
-            elif c > 0.8:
+            elif c > 0.85:
                 frags.append(rng.choice(MOD_FRAGS))
+            elif c > 0.6:
+                lab, src, _ = rng.choice(spool)
+                if rng.random() < 0.5:
+                    # the sentinel right behind the guarded macros, in the same template
+                    src += "{{ sl." + SH.SENSE_CALL + " }}"
+                frags.append((lab, src, 0))
             else:
                 frags.append(rng.choice(pool))
         # unique macro / variable names per use
@@ -224,9 +250,13 @@ def gen_case(rng, is_async):
                    + "{% endblock %}")
             labs += ["base-foot", "self-block"]
         else:
-            src = "{% import 'lib.j2' as lib %}" + body
+            src = "{% import 'lib.j2' as lib %}{% import 'slib.j2' as sl %}" + body
         tpls[name] = src
         mains.append(name)
         labels[name] = labs
-    return {"tpls": tpls, "mains": mains, "labels": labels, "is_async": bool(is_async),
-            "autoescape": rng.random() < 0.5, "i18n": i18n}
+    case = {"tpls": tpls, "mains": mains, "labels": labels, "is_async": bool(is_async),
+            "autoescape": autoescape, "i18n": i18n, "probes": [SH.PROBE]}
+    if not is_async:
+        # Template.module is the same cached module, reached from Python
+        case["modcalls"] = SH.gen_modcalls(rng)
+    return case
